@@ -124,7 +124,14 @@ class Question(object):
         """
         Outputs an error message.
         """
-        message = "<error>{}</error>".format(decode(str(error)))
+        message = decode(str(error))
+
+        if "<" in message or message.endswith("\\"):
+            # The error quotes what was typed, which is not markup: it is
+            # shown as it is, unstyled
+            message = message.replace("<", "\\<")
+        else:
+            message = "<error>{}</error>".format(message)
 
         io.error_line(message)
 
